@@ -370,8 +370,8 @@ def match_known(entry, prop, reason, rec, extra=None):
 
 # ----------------------------------------------------------------------------- evidence / verdict
 def write_evidence(prop, tier, level, coverage, wall, violations, assumptions):
-    if os.path.realpath(REPO) != "/repo":
-        return   # evidence describes runs against /repo itself, never a scratch worktree (bin/tryseed, bin/seeded)
+    if os.path.realpath(REPO) != "/repo" or os.environ.get("VERIF_NO_EVIDENCE"):
+        return   # evidence describes runs against the unchanged /repo, never a scratch worktree or a tree with a seeded change applied (bin/tryseed, bin/seeded)
     os.makedirs(os.path.join(VERIF, "evidence"), exist_ok=True)
     ev = {"property_id": prop, "tier": tier, "seed": SEED, "level": level, "coverage": coverage,
           "assumptions": assumptions, "wall_s": round(wall, 2), "violations": violations}
